@@ -35,7 +35,7 @@ from ..impl import mx, close_all, quiet, err_kind
 from ..structworld import val_repr
 from modelx.core.errors import DeletedObjectError
 
-KNOWN_DYNBASE = "C07-dynbase-edit-not-propagated"
+KNOWN_DYNBASE = "C07-dynbase-edit-not-propagated"   # FIXED by /repo 482219e: no longer a key that excuses anything
 # (an instance that survived the deletion of the space it hangs under was a second finding on the
 # tree this check was first run on; /repo commit 620f512 repaired it, so it is a violation again)
 
@@ -671,10 +671,12 @@ def static_sig(s):
             tuple(s.spaces), f.source if f is not None else None)
 
 
-# definition edits that reach a base only through its namespace / parameter formula (nothing
-# in them calls DynamicBase.clear_subs_rootitems)
-UNPROPAGATED = ("del_cells", "set_ref", "del_ref", "new_space", "del_space", "add_bases", "remove_bases",
-                "set_pformula")
+# Before /repo commit 482219e the definition edits that reach a base only through its namespace /
+# parameter formula ("del_cells", "set_ref", "del_ref", "new_space", "del_space", "add_bases",
+# "remove_bases", "set_pformula") did not discard dynamic spaces built from it elsewhere, and a stale
+# instance after one of them was reported under the known finding's key.  The defect is repaired:
+# the list is empty, so every stale instance is a violation again.
+UNPROPAGATED = ()
 
 
 class Run:
